@@ -472,7 +472,7 @@ int spawn(TaskFn fn, void* arg) {
     g.tasks.push_back(t);
     g.st.tasks = (int)g.tasks.size();
     int saved = tls_in_sut; tls_in_sut = 0;
-    pthread_attr_t at; pthread_attr_init(&at); pthread_attr_setstacksize(&at, 1 << 20);
+    pthread_attr_t at; pthread_attr_init(&at); pthread_attr_setstacksize(&at, g.cfg.task_stack_bytes);
     int rc = __real_pthread_create(&t->th, &at, trampoline, t);
     pthread_attr_destroy(&at);
     tls_in_sut = saved;
